@@ -272,8 +272,20 @@ impl Uci {
                 self.game = Game::new();
                 self.is_stopped.reset();
 
+                #[cfg(jgilchrist_tcheran_verif)]
+                {
+                    util::verif::done("M:ucinewgame");
+                    util::verif::gate("M:newgamelock");
+                }
+
                 let mut persistent_state_handle = self.persistent_state.lock().unwrap();
                 persistent_state_handle.reset();
+
+                #[cfg(jgilchrist_tcheran_verif)]
+                {
+                    drop(persistent_state_handle);
+                    util::verif::done("M:newgamelock");
+                }
             }
             UciCommand::Position { position, moves } => {
                 let mut game = match position {
@@ -332,8 +344,17 @@ impl Uci {
                 let persistent_state = self.persistent_state.clone();
                 let is_stopped = self.is_stopped.clone();
 
+                #[cfg(jgilchrist_tcheran_verif)]
+                let verif_search_id = util::verif::next_search_id();
+
                 let join_handle = std::thread::spawn(move || {
+                    #[cfg(jgilchrist_tcheran_verif)]
+                    util::verif::gate(&format!("S{verif_search_id}:lock"));
+
                     let mut persistent_state_handle = persistent_state.lock().unwrap();
+
+                    #[cfg(jgilchrist_tcheran_verif)]
+                    util::verif::done(&format!("S{verif_search_id}:lock"));
 
                     let best_move = search::search(
                         &game,
@@ -344,8 +365,26 @@ impl Uci {
                         &mut reporter,
                     );
 
+                    #[cfg(jgilchrist_tcheran_verif)]
+                    util::verif::gate(&format!("S{verif_search_id}:finish"));
+
                     reporter.best_move(&game, best_move);
+
+                    #[cfg(jgilchrist_tcheran_verif)]
+                    {
+                        util::verif::done(&format!("S{verif_search_id}:finish"));
+                        util::verif::gate(&format!("S{verif_search_id}:latch"));
+                    }
+
                     is_stopped.set();
+
+                    #[cfg(jgilchrist_tcheran_verif)]
+                    {
+                        util::verif::done(&format!("S{verif_search_id}:latch"));
+                        util::verif::gate(&format!("S{verif_search_id}:exit"));
+                        drop(persistent_state_handle);
+                        util::verif::done(&format!("S{verif_search_id}:exit"));
+                    }
                 });
 
                 if self.block_on_threads {
@@ -353,9 +392,24 @@ impl Uci {
                 }
             }
             UciCommand::Stop => {
+                #[cfg(jgilchrist_tcheran_verif)]
+                if self.control.is_none() {
+                    util::verif::done("M:stop");
+                }
+
                 if let Some(c) = self.control.as_mut() {
                     c.stop();
+
+                    #[cfg(jgilchrist_tcheran_verif)]
+                    {
+                        util::verif::done("M:stop");
+                        util::verif::gate("M:stopwake");
+                    }
+
                     self.is_stopped.wait();
+
+                    #[cfg(jgilchrist_tcheran_verif)]
+                    util::verif::done("M:stopwake");
                 }
 
                 self.control = None;
@@ -464,7 +518,18 @@ impl Uci {
 
         match command {
             Ok(ref c) => {
+                #[cfg(jgilchrist_tcheran_verif)]
+                let verif_label = verif_command_label(c);
+                #[cfg(jgilchrist_tcheran_verif)]
+                util::verif::gate(&verif_label);
+
                 let execute_result = self.execute(c)?;
+
+                // stop and ucinewgame log their own steps
+                #[cfg(jgilchrist_tcheran_verif)]
+                if !matches!(c, UciCommand::Stop | UciCommand::UciNewGame) {
+                    util::verif::done(&verif_label);
+                }
 
                 if execute_result == ExecuteResult::Exit {
                     return Ok(false);
@@ -511,6 +576,25 @@ impl Uci {
             UciInputMode::Commands(cmds) => self.main_loop_args(cmds),
         }
     }
+}
+
+/// Verification hook: the step label of a command of the input thread.
+#[cfg(jgilchrist_tcheran_verif)]
+fn verif_command_label(cmd: &UciCommand) -> String {
+    let word = match cmd {
+        UciCommand::Uci => "uci",
+        UciCommand::IsReady => "isready",
+        UciCommand::SetOption { .. } => "setoption",
+        UciCommand::UciNewGame => "ucinewgame",
+        UciCommand::Position { .. } => "position",
+        UciCommand::Go(GoCmdArguments { depth: None, movetime: None, wtime: None, btime: None, .. }) => "goinf",
+        UciCommand::Go(_) => "go",
+        UciCommand::Stop => "stop",
+        UciCommand::Quit => "quit",
+        _ => "other",
+    };
+
+    format!("M:{word}")
 }
 
 #[derive(Debug, PartialEq)]
